@@ -60,7 +60,6 @@ class CompositeAction : public SerialAssembleAction {
   protected:
     virtual void onStart() override;
     virtual void onReset() override;
-    virtual void onFinished(bool is_succ, const Reason &why, const Trace &trace) override;
 
   private:
     Action *child_ = nullptr;
